@@ -1,4 +1,5 @@
-HOOK_COMMITS = ["0bea7592e7ca130e79f040da91a210706bd9be53"]
+HOOK_COMMITS = ["0bea7592e7ca130e79f040da91a210706bd9be53", "dee1b387cf1964a8c1dce82099415afaf636e7dc",
+                "8ee5c5c35694b7aaa8016d78160c09640b41b008", "5c5f834dda4fedee8ecacda820a2bde68a51dfb4"]
 NOTES = ("Model-based verification with explicit TLA+ specifications (spec/*.tla). (A) TLC model checking of the "
          "implementation-shaped specs, (B) traces recorded from the real crate validated by TLC against a property-level "
          "monitor and an implementation-level strict trace spec, (C) TLC-generated behaviours replayed on the crate. "
@@ -39,7 +40,7 @@ def _coll(text, ref):
     return dict(category="model_checking", text=text, design_ref=ref, note=_COLL_NOTE,
                 technique="TLA+ reference semantics + TLC trace validation of twin (bumpalo/std) executions")
 CHECKS.update({
-    "C13": _coll("Every program is executed on bumpalo::collections::Vec<Tracked> and on std::vec::Vec<Tracked>; TLC validates both traces against Coll!Sem (return values, contents with element identity, panic/no-panic, capacity >= length and >= promised, neighbours/canaries undisturbed): all operations x all index/range arguments (incl. usize::MAX, every range form) on lengths 0..3(4), all pairs over a reduced alphabet, seeded random programs over two vectors/boxes; dbg and rel.", "6/C13"),
+    "C13": _coll("(A) CollModel.tla: the reference semantics Coll!Sem model-checked as a state machine (conservation of elements, no aliasing, panic atomicity, length laws; complete, 28k states). (B) Every program is executed on bumpalo::collections::Vec<Tracked> and on std::vec::Vec<Tracked>; TLC validates both traces against Coll!Sem (return values, contents with element identity, panic/no-panic, capacity >= length and >= promised, neighbours/canaries undisturbed): all operations x all index/range arguments (incl. usize::MAX, every range form) on lengths 0..3(4), all pairs over a reduced alphabet, seeded random programs over two vectors/boxes; dbg and rel.", "6/C13"),
     "C15": _coll("Unique-id drop ledger per call; CollTrace checks NoDoubleDrop, DropsExactlyWhatTheCallLetsGo (Coll!Sem's drop set), conservation EveryElementAccountedForExactlyOnce (before + created = after + dropped + specified leaks, pairwise disjoint) on every call of every program, incl. partially consumed / leaked iterators and conversions; quiescence at program end.", "6/C15"),
     "C16": _coll("Panic-point enumerator: for every callback-calling operation, every callback index (predicate, key fn, Clone, Drop, iterator step) as the panic point, with and without follow-up use; after unwinding CollTrace requires: no id dropped twice (now or later), no dropped/moved-out id reachable in any container, no duplicate ids, caller-held values not dropped; leaks allowed.", "6/C16"),
     "C17": _coll("Box programs (new_in, drop, into_inner, leak, into_raw/from_raw round trip, from_iter_in, Vec->boxed slice, Debug forwarding) on bumpalo and std Box twins validated against Coll!Sem; BoxDropReleasesNoMemory checks that no global-allocator free and no accounting change happens at Box drop.", "6/C17"),
@@ -80,15 +81,16 @@ CHECKS["C05"] = dict(category="model_checking", design_ref="6/C05",
 ENGINES.append(dict(name="tlc-borrow", path="spec/Borrow.tla lib/vcheck/borrow.py", serves_properties=["C05"],
     kind_free_text="TLA+ typestate model of borrow/move/thread rules; TLC enumerates programs; rustc compiles the rendered probes"))
 CHECKS["C14"] = dict(category="model_checking", design_ref="6/C14",
-    text=("Every program runs on bumpalo::collections::String and std::string::String; TLC validates both traces against Str!Sem: text, return values, "
+    text=("(A) StrModel.tla: laws of the reference semantics checked by TLC over all inputs of a small scope (decoder round trip / scalar values / error position on 168k byte strings, panic-iff-not-a-boundary and length arithmetic for every index and range form). "
+          "(B) Every program runs on bumpalo::collections::String and std::string::String; TLC validates both traces against Str!Sem: text, return values, "
           "panic/no-panic for every byte index (boundary or not) and every range form incl. usize::MAX over texts of 1-4-byte chars, valid UTF-8 after every call, "
           "capacity; decoders from_utf8 / from_utf8_lossy_in / from_utf16_in against TLA+ transcriptions of Unicode Table 3-7 (maximal subparts) and surrogate pairing "
           "on all class-representative byte strings up to length 3 (4 thorough), structured corruptions and random ones."),
     note=("Trusted: TLC + Json/IOUtils; Str.tla (validated against std on every program and input: a std disagreement is a tool error). "
           "Bounded texts (<= 3 chars + appended), decoder inputs by byte class."),
     technique="TLA+ reference semantics + transcribed decoders + TLC trace validation of twin (bumpalo/std) executions")
-ENGINES.append(dict(name="tlc-str", path="spec/Str.tla spec/StrTrace.tla", serves_properties=["C14", "C16"],
+ENGINES.append(dict(name="tlc-str", path="spec/Str.tla spec/StrTrace.tla spec/StrModel.tla", serves_properties=["C14", "C16"],
     kind_free_text="TLA+ reference semantics of String and of the UTF-8/UTF-16 decoders; TLC trace validation of twin executions"))
-ENGINES.append(dict(name="tlc-coll", path="spec/Coll.tla spec/CollTrace.tla", serves_properties=["C13", "C15", "C16", "C17"],
+ENGINES.append(dict(name="tlc-coll", path="spec/Coll.tla spec/CollTrace.tla spec/CollModel.tla", serves_properties=["C13", "C15", "C16", "C17"],
     kind_free_text="TLA+ reference semantics of Vec/Box over element identities; TLC trace validation of twin executions"))
 NOT_APPLICABLE = {}
